@@ -308,6 +308,6 @@ pub fn run(ctx: &Ctx) {
     ctx.exhaustive("headers", 7 * 10 * 10 * 2 * 6 * 6 * 2, header_nth, header_oracle);
     ctx.exhaustive("interrupts", 5 * 5 * 2 * 3 * 5 * 3, interrupt_nth, interrupt_oracle);
     ctx.cases("ranges_at_i64_limits", limit_ranges(), rand_oracle);
-    ctx.random("big_headers", ctx.pick(150_000, 600_000), big_header, header_oracle);
-    ctx.random("programs", ctx.pick(150_000, 1_000_000), rand_strategy, rand_oracle);
+    ctx.random("big_headers", ctx.pick(150_000, 3_000_000), big_header, header_oracle);
+    ctx.random("programs", ctx.pick(150_000, 6_000_000), rand_strategy, rand_oracle);
 }
